@@ -58,10 +58,7 @@ def build(run: Run):
     install_type_hooks(run)
     keys = analysis_contracts(run, total=True)
     only = os.environ.get("VERIF_ONLY")
-    for k in keys:
-        if only and only not in k:
-            continue
-        run.verify(k)
+    run.verify_batch([k for k in keys if not (only and only not in k)])
     if not only:
         run.verify("analysis.AnalysisContext.shorten_code", "analysis.AnalysisContext.analyze", "analysis.Analyzer.analyze",
                    "analysis.AnalysisResults.severity", "analysis.AnalysisResults.to_dict", "analysis.AnalysisResults.detailed_results",
